@@ -572,9 +572,21 @@ func (e *exec) handlePanic(t *thread, r interface{}) {
 func trimStack(s string) string {
 	lines := strings.Split(s, "\n")
 	var keep []string
-	for _, l := range lines {
-		if strings.Contains(l, "gnet/v2") {
-			keep = append(keep, strings.TrimSpace(l))
+	for i, l := range lines {
+		if strings.Contains(l, "gnet/v2") && !strings.HasPrefix(l, "\t") {
+			f := strings.TrimSpace(l)
+			// the next line of a stack dump is "\t/path/file.go:line +0x.."
+			if i+1 < len(lines) && strings.HasPrefix(lines[i+1], "\t") {
+				loc := strings.TrimSpace(lines[i+1])
+				if k := strings.LastIndexByte(loc, '/'); k >= 0 {
+					loc = loc[k+1:]
+				}
+				if k := strings.IndexByte(loc, ' '); k >= 0 {
+					loc = loc[:k]
+				}
+				f += " @" + loc
+			}
+			keep = append(keep, f)
 		}
 		if len(keep) >= 14 {
 			break
